@@ -491,3 +491,49 @@ def guarded(fn, *a, **kw):
         return fn(*a, **kw)
     except Exception as e:  # noqa
         return ImplError('%s: %s' % (type(e).__name__, e))
+
+
+def _snap(x):
+    """snapshot of the array content reachable from one argument (ndarray, or an eqsig Signal-like object with .values)"""
+    import numpy as np
+    if isinstance(x, np.ndarray):
+        return ('nd', x.dtype.str, x.shape, x.tobytes())
+    v = getattr(x, '_values', None)
+    if isinstance(v, np.ndarray):
+        return ('sig', v.dtype.str, v.shape, v.tobytes())
+    return None
+
+
+def _same(r1, r2):
+    import numpy as np
+    if isinstance(r1, (tuple, list)) and isinstance(r2, (tuple, list)):
+        return len(r1) == len(r2) and all(_same(a, b) for a, b in zip(r1, r2))
+    try:
+        a1, a2 = np.asarray(r1), np.asarray(r2)
+        if a1.dtype == object or a2.dtype == object:
+            return True          # not comparable generically (objects): no verdict
+        return a1.shape == a2.shape and bool(np.array_equal(a1, a2, equal_nan=True))
+    except Exception:  # noqa
+        return True
+
+
+def guarded_pure(fn, *a, **kw):
+    """for functions the property treats as pure: call, check that no ndarray argument (or Signal argument's record) was
+    changed bit for bit, call again on the very same argument objects and check that the result is identical.
+    Returns the first result, or an ImplError value describing the mutation / non-repeatability / exception."""
+    before = [_snap(x) for x in a] + [_snap(x) for x in kw.values()]
+    try:
+        r1 = fn(*a, **kw)
+    except Exception as e:  # noqa
+        return ImplError('%s: %s' % (type(e).__name__, e))
+    after = [_snap(x) for x in a] + [_snap(x) for x in kw.values()]
+    for i, (b, c) in enumerate(zip(before, after)):
+        if b != c:
+            return ImplError('InputMutated: argument %d was modified by the call (bitwise comparison before/after)' % i)
+    try:
+        r2 = fn(*a, **kw)
+    except Exception as e:  # noqa
+        return ImplError('SecondCall%s: %s' % (type(e).__name__, e))
+    if not _same(r1, r2):
+        return ImplError('NotRepeatable: a second call on the same argument objects returned a different result')
+    return r1
